@@ -19,7 +19,7 @@ register(
         "GtModel.C03.mset_reported_eq_sum_partial",
         "GtModel.C03.mset_d21_witness",
     ],
-    streams=["script", "scriptx", "scriptxml", "scriptmset", "script_O"],
+    streams=["script", "scriptx", "scriptxml", "scriptmset", "script_O", "numeq"],
     assumptions=[
         "the engine has fully tightened every bound (the model is the static final script; stream `script` dumps "
         "the script after `tighten_bounds()` is exhausted)",
